@@ -19,6 +19,7 @@
    longjmp, no -t/-F/-N/-T options.  This file has NO proofs (it is run by vm_compute).     *)
 From Coq Require Import NArith List Bool.
 Import ListNotations.
+Require Import UV.Gen.TimeUnit.
 Local Open Scope N_scope.
 
 (* ------------------------------------------------------------------ records and tasks *)
@@ -89,9 +90,11 @@ Record tstate := mkts {
   t_fork_dd : N;           (* fork_display_depth *)
   t_stack : list frame;    (* func_stack[]; slots beyond the list are zero (xcalloc) *)
   t_ts : N;                (* timestamp *)
-  t_ts_last : N            (* timestamp_last *)
+  t_ts_last : N;           (* timestamp_last *)
+  t_orphan : bool          (* forked task whose parent reader is not selected (--tid): its first record
+                              clears display_depth_set, the display depth then comes from the stack count *)
 }.
-Definition tstate0 := mkts false 0 0 0 [] 0 0.
+Definition tstate0 := mkts false 0 0 0 [] 0 0 false.
 
 Definition fget (st : list frame) (i : N) : frame := nth (N.to_nat i) st frame0.
 Fixpoint upd (st : list frame) (n : nat) (x : frame) : list frame :=
@@ -119,15 +122,15 @@ Definition first_setup (inh : N) (ts : tstate) (r : rec) : tstate :=
   if t_set ts then ts
   else
     let sc := match r_type r with ENTRY => r_depth r | EXIT => r_depth r + 1 end in
-    mkts true sc (if inh =? 0 then t_dd ts else inh) (t_fork_dd ts)
-         (init_frames (t_stack ts) (N.to_nat sc) (r_time r)) (t_ts ts) (t_ts_last ts).
+    mkts true sc (if inh =? 0 then (if t_orphan ts then sc else t_dd ts) else inh) (t_fork_dd ts)
+         (init_frames (t_stack ts) (N.to_nat sc) (r_time r)) (t_ts ts) (t_ts_last ts) (t_orphan ts).
 
 (* fstack_account_time, ENTRY / EXIT part *)
 Definition account (ts : tstate) (r : rec) : tstate :=
   match r_type r with
   | ENTRY =>
       mkts (t_set ts) (t_sc ts) (t_dd ts) (t_fork_dd ts)
-           (fset (t_stack ts) (t_sc ts) (mkframe (r_addr r) (r_time r) true)) (t_ts ts) (t_ts_last ts)
+           (fset (t_stack ts) (t_sc ts) (mkframe (r_addr r) (r_time r) true)) (t_ts ts) (t_ts_last ts) (t_orphan ts)
   | EXIT =>
       if t_sc ts =? 0 then ts          (* idx = -1: fstack_get returns NULL *)
       else
@@ -135,14 +138,14 @@ Definition account (ts : tstate) (r : rec) : tstate :=
         let f := fget (t_stack ts) idx in
         let delta := if f_valid f then sub64 (r_time r) (f_time f) else 0 in
         mkts (t_set ts) (t_sc ts) (t_dd ts) (t_fork_dd ts)
-             (fset (t_stack ts) idx (mkframe (f_addr f) delta false)) (t_ts ts) (t_ts_last ts)
+             (fset (t_stack ts) idx (mkframe (f_addr f) delta false)) (t_ts ts) (t_ts_last ts) (t_orphan ts)
   end.
 
 (* fstack_update_stack_count *)
 Definition count (ts : tstate) (r : rec) : tstate :=
   mkts (t_set ts)
        (match r_type r with ENTRY => t_sc ts + 1 | EXIT => N.pred (t_sc ts) end)
-       (t_dd ts) (t_fork_dd ts) (t_stack ts) (t_ts ts) (t_ts_last ts).
+       (t_dd ts) (t_fork_dd ts) (t_stack ts) (t_ts ts) (t_ts_last ts) (t_orphan ts).
 
 Definition consume_task (inh : N) (ts : tstate) (r : rec) : tstate :=
   count (account (first_setup inh ts r) r) r.
@@ -198,11 +201,11 @@ Record cfg := mkcfg {
 Definition is_fork (c : cfg) (a : N) : bool := existsb (N.eqb a) (c_forks c).
 
 Definition stamp (ts : tstate) (t : N) : tstate :=
-  mkts (t_set ts) (t_sc ts) (t_dd ts) (t_fork_dd ts) (t_stack ts) t (t_ts ts).
+  mkts (t_set ts) (t_sc ts) (t_dd ts) (t_fork_dd ts) (t_stack ts) t (t_ts ts) (t_orphan ts).
 Definition set_dd (ts : tstate) (dd : N) : tstate :=
-  mkts (t_set ts) (t_sc ts) dd (t_fork_dd ts) (t_stack ts) (t_ts ts) (t_ts_last ts).
+  mkts (t_set ts) (t_sc ts) dd (t_fork_dd ts) (t_stack ts) (t_ts ts) (t_ts_last ts) (t_orphan ts).
 Definition set_fork (ts : tstate) (fd : N) : tstate :=
-  mkts (t_set ts) (t_sc ts) (t_dd ts) fd (t_stack ts) (t_ts ts) (t_ts_last ts).
+  mkts (t_set ts) (t_sc ts) (t_dd ts) fd (t_stack ts) (t_ts ts) (t_ts_last ts) (t_orphan ts).
 
 Definition delta_of (ts : tstate) : N := if t_ts_last ts =? 0 then 0 else sub64 (t_ts ts) (t_ts_last ts).
 
@@ -311,15 +314,23 @@ Fixpoint first_unselected (sel : option (list nat)) (tasks : list task) (i : nat
       first_unselected sel r (S i) first'
   end.
 
+(* a forked task whose parent's reader exists but is not selected *)
+Definition orphan_of (sel : option (list nat)) (tasks : list task) (t : task) : bool :=
+  match k_parent t with
+  | Some p => Nat.ltb p (length tasks) && negb (selected sel p)
+  | None => false
+  end.
+Definition tstate_init (orphan : bool) : tstate := mkts false 0 0 0 [] 0 0 orphan.
+
 Definition init_g (sel : option (list nat)) (tasks : list task) : gstate :=
-  mkg (map (fun _ => tstate0) tasks) (first_unselected sel tasks 0 0) 0.
+  mkg (map (fun t => tstate_init (orphan_of sel tasks t)) tasks) (first_unselected sel tasks 0 0) 0.
 
 Definition replay_raw (c : cfg) (sel : option (list nat)) (tasks : list task) : list line * gstate :=
   run c tasks (merge (mask_queues sel tasks 0)) (init_g sel tasks).
 
 (* ------------------------------------------------------------------ presentation *)
 (* print_time_unit: 0 = blank, otherwise unit*10^6 + whole*1000 + fraction *)
-Definition time_limits : list N := [1000; 1000; 1000; 60; 24].
+Definition time_limits : list N := TIME_UNIT_LIMITS.        (* limit[] of __print_time_unit, generated from utils/debug.c *)
 Fixpoint fmt_loop (lims : list N) (idx delta : N) : N * N * N :=
   match lims with
   | [] => (idx, delta, 0)
@@ -467,8 +478,9 @@ Definition spec_start (rs : list rec) : list N :=
 (* reference semantics of the WHOLE replay on the merged stream: every task has a display
    depth and a stack of entry times; a task's first record sets up the inherited frames and
    takes over the display depth its parent had inside fork() *)
-Record sstate := mkss { s_set : bool; s_dd : N; s_fork : N; s_stk : list N }.
-Definition sstate0 := mkss false 0 0 [].
+Record sstate := mkss { s_set : bool; s_dd : N; s_fork : N; s_stk : list N;
+                        s_orphan : bool (* forked, parent not shown: continues at its inherited stack depth *) }.
+Definition sstate0 := mkss false 0 0 [] false.
 Fixpoint supd (l : list sstate) (i : nat) (x : sstate) : list sstate :=
   match l, i with
   | [], _ => []
@@ -482,7 +494,8 @@ Definition s_inherit (tasks : list task) (S : list sstate) (i : nat) : N :=
   end.
 Definition s_first (inh : N) (ss : sstate) (r : rec) : sstate :=
   if s_set ss then ss
-  else mkss true (if inh =? 0 then s_dd ss else inh) (s_fork ss) (repeat (r_time r) (N.to_nat (first_depth r))).
+  else mkss true (if inh =? 0 then (if s_orphan ss then first_depth r else s_dd ss) else inh) (s_fork ss)
+            (repeat (r_time r) (N.to_nat (first_depth r))) (s_orphan ss).
 Fixpoint srun (forks : list N) (tasks : list task) (l : list (nat * rec)) (S : list sstate) : list event :=
   match l with
   | [] => []
@@ -492,16 +505,19 @@ Fixpoint srun (forks : list N) (tasks : list task) (l : list (nat * rec)) (S : l
       | ENTRY =>
           let fk := if existsb (N.eqb (r_addr r)) forks then s_dd ss + 1 else s_fork ss in
           mkev true i (s_dd ss) (r_addr r) 0 (r_time r)
-            :: srun forks tasks tl (supd S i (mkss true (s_dd ss + 1) fk (r_time r :: s_stk ss)))
+            :: srun forks tasks tl (supd S i (mkss true (s_dd ss + 1) fk (r_time r :: s_stk ss) (s_orphan ss)))
       | EXIT =>
           match s_stk ss with
           | t0 :: stk' =>
               mkev false i (N.pred (s_dd ss)) (r_addr r) (r_time r - t0) (r_time r)
-                :: srun forks tasks tl (supd S i (mkss true (N.pred (s_dd ss)) (s_fork ss) stk'))
+                :: srun forks tasks tl (supd S i (mkss true (N.pred (s_dd ss)) (s_fork ss) stk' (s_orphan ss)))
           | [] => []
           end
       end
   end.
+
+Definition init_S (sel : option (list nat)) (tasks : list task) : list sstate :=
+  map (fun t => mkss false 0 0 [] (orphan_of sel tasks t)) tasks.
 
 (* call forests: the ground truth a task's stream is the trace of *)
 Inductive call := Call (a t0 t1 : N) (kids : list call).
@@ -601,7 +617,8 @@ Fixpoint ok_tasks (forks : list N) (sel : option (list nat)) (with_time : bool) 
       (if selected sel i
        then
          let inh := match k_parent t with
-                    | Some p => if selected sel p then last_fork_indent forks p (before_task i es) 0 else 0
+                    | Some p => if selected sel p then last_fork_indent forks p (before_task i es) 0
+                                else match k_recs t with r :: _ => first_depth r | [] => 0 end   (* parent not shown *)
                     | None => 0
                     end in
          list_eqb (ev_match with_time) mine (spec_task i inh (spec_start (k_recs t)) (k_recs t))
